@@ -141,7 +141,7 @@ Apply(i, x) == /\ inst[i].built
                /\ UNCHANGED <<ht, bld, inst, snap, sync, fed, bp>>
 
 Next == \/ \E p \in Deltas : Update(p)
-        \/ (Rich /\ \E p \in Singles \cup {NoP} : Reset(p))
+        \/ \E p \in (IF Rich THEN Singles \cup {NoP} ELSE {}) : Reset(p)
         \/ \E i \in Inst : \/ \E ov \in Overrides : Build(i, ov)
                            \/ \E d \in Data : Train(i, d) \/ Apply(i, d)
                            \/ GetState(i) \/ SetEmpty(i) \/ Pickle(i)
